@@ -12,13 +12,19 @@
     inside the range as whole allocations and gives the (at most one) partial one counter 0;
   * the table has an entry for every huge frame (`GeomOk.ceil_hf_le`), for every geometry.
 
-  PARTIAL: that the *programs* `free_all`/`reserve_all` (store loops, `Bitfield::set` on the
-  partial bitfield) produce these values and the matching bits, i.e. establish `LowerInv` with the
-  stated allocation state, and the dynamic clauses via C02/C04/C10, are not yet theorems. Carried
-  by the correspondence over boundary-dense frame counts in every geometry: metadata bytes after
-  initialisation compared with the model, full exhaust/free cycles with the ownership oracle.
+  * `free_all_establishes` / `alloc_all_establishes` — the *programs* (`Lower::free_all`,
+    `Lower::reserve_all` with their store loops, `Bitfield::fill`, `Bitfield::set` on the partial
+    bitfield, then `Trees::new`) establish, for **every frame count** (including 0) and geometry,
+    from arbitrary buffer contents: the lower and upper invariants, nothing hidden, and the
+    allocation state "allocated iff at or beyond the managed count" resp. "everything allocated,
+    huge frames inside the range as whole huge frames". With C02 (`get` returns only free frames,
+    `put` succeeds iff allowed) this is the statement of the property; the accounting clauses are
+    C04 (`stats_exact`, `fast_counters_exact`).
+
+  Carried by the correspondence only: that the model transliterates the source (byte-level
+  digest after construction over boundary-dense frame counts in 5 geometries).
 -/
-import LLFreeV.Proofs.UpperInit
+import LLFreeV.Proofs.EndToEnd
 import LLFreeV.Proofs.CfgOk
 import LLFreeV.Model.Policies
 namespace LLFree.C06
@@ -138,5 +144,33 @@ example : ∀ s, SlotAbsent mTiny s := by
   cases s with
   | zero => simp [mTiny] at hl; rw [← hl]; rfl
   | succ s => simp [mTiny] at hl
+
+
+/-- **`Init::FreeAll`, every frame count** (the whole initialisation after the metadata checks,
+    from arbitrary contents of the lower and trees buffers and empty slots): afterwards the upper
+    and lower invariants hold, nothing is hidden, and a frame is allocated iff it lies at or
+    beyond the managed count — every managed frame is free, no other frame is. -/
+theorem free_all_establishes (c : Cfg) (ok : CfgOk c) (m : Mem) (hs : ShapeOk c m) (habs : ∀ s, SlotAbsent m s) :
+    Runs m (initProg c .freeAll) (fun _ m' => UpperInv0 c (fun _ => False) m' ∧
+      ∀ f, m'.allocated c.geom f = decide (c.frames ≤ f)) := init_freeAll_spec ok m hs habs
+
+/-- **`Init::AllocAll`, every frame count**: every frame is allocated (so nothing can be
+    allocated, C02), every huge frame that lies entirely inside the range is allocated as a whole
+    (so it can be freed once at huge order) and every other managed frame can be freed at base
+    order (`PutAllowed` of C02); afterwards the counts are those of the allocation state (C04). -/
+theorem alloc_all_establishes (c : Cfg) (ok : CfgOk c) (m : Mem) (hs : ShapeOk c m) (habs : ∀ s, SlotAbsent m s) :
+    Runs m (initProg c .allocAll) (fun _ m' => UpperInv0 c (fun _ => False) m' ∧
+      (∀ f, m'.allocated c.geom f = true) ∧
+      (∀ j, j < c.frames / c.geom.hugeFrames → m'.whole j = true)) := init_allocAll_spec ok m hs habs
+
+/-- the lower half alone: `free_all` / `reserve_all` establish the lower invariant from any
+    buffer contents, for every frame count and geometry -/
+theorem lower_free_all_inv (c : Cfg) (ok : GeomOk16 c.geom) (m : Mem) (hs : ShapeOk c m) :
+    Runs m (Lower.freeAll c.geom c.frames c.ntrees c.nhuge) (fun _ m' => LowerInv c m' ∧ FreshFree c m m') :=
+  freeAll_lowerInv ok m hs
+
+theorem lower_reserve_all_inv (c : Cfg) (ok : GeomOk16 c.geom) (m : Mem) (hs : ShapeOk c m) :
+    Runs m (Lower.reserveAll c.geom c.frames c.ntrees c.nhuge) (fun _ m' => LowerInv c m' ∧ FreshAlloc c m m') :=
+  reserveAll_lowerInv ok m hs
 
 end LLFree.C06
